@@ -149,12 +149,39 @@ Section WithSites.
     apply fold_left_ext. intros d [a b]. reflexivity.
   Qed.
 
+  (* the same counting written `d[k] = d.get(k, 0) + 1` (the default is not inserted before the store):
+     the store overwrites what setdefault would have inserted *)
+  Lemma dset_dset (k : S) (x y : Z) (d : list (S * Z)) : dset seqb k x (dset seqb k y d) = dset seqb k x d.
+  Proof.
+    induction d as [|[k' x'] d IH]; cbn [dset]; [rewrite seqb_refl; reflexivity|].
+    destruct (seqb k k') eqn:E; cbn [dset]; rewrite E; [reflexivity | now rewrite IH].
+  Qed.
+
+  Lemma get_incr (k : S) (d : list (S * Z)) :
+    dset seqb k (Z.add (match lookup seqb k d with Some v => v | None => 0 end) 1) d = incr seqb k d.
+  Proof. unfold incr, setdefault. destruct (lookup seqb k d); [reflexivity|]. now rewrite dset_dset. Qed.
+
+  Lemma gen_loop_get_eq (edges : list (S * S)) :
+    fold_left (fun coordinations '(cooa, coob) =>
+       let coordinations := (dset seqb cooa (Z.add (match lookup seqb cooa coordinations with Some gt_v => gt_v | None => 0 end) 1) coordinations) in
+       let coordinations := (dset seqb coob (Z.add (match lookup seqb coob coordinations with Some gt_v => gt_v | None => 0 end) 1) coordinations) in
+       coordinations) edges [] = coord_loop seqb edges.
+  Proof.
+    unfold coord_loop, endpoints. rewrite fold_left_flat_map.
+    apply fold_left_ext. intros d [a b]. cbn [fold_left]. cbv zeta. now rewrite !get_incr.
+  Qed.
+
+  (* whichever of the two spellings each statement of the CURRENT source uses *)
+  Ltac coord_loop_tac :=
+    unfold coord_loop, endpoints; rewrite fold_left_flat_map;
+    apply fold_left_ext; intros d [a b]; cbn [fold_left]; cbv zeta; rewrite ?get_incr; reflexivity.
+
   Lemma hubbard_coordinations_eq edges : ham_fermi_hubbard_from_edges_coordinations seqb edges = coord_loop seqb edges.
-  Proof. exact (gen_loop_eq edges). Qed.
+  Proof. unfold ham_fermi_hubbard_from_edges_coordinations. coord_loop_tac. Qed.
   Lemma spinless_coordinations_eq edges : ham_fermi_hubbard_spinless_from_edges_coordinations seqb edges = coord_loop seqb edges.
-  Proof. exact (gen_loop_eq edges). Qed.
+  Proof. unfold ham_fermi_hubbard_spinless_from_edges_coordinations. coord_loop_tac. Qed.
   Lemma tfim_coordinations_eq edges : ham_tfim_from_edges_coordinations seqb edges = coord_loop seqb edges.
-  Proof. exact (gen_loop_eq edges). Qed.
+  Proof. unfold ham_tfim_from_edges_coordinations. coord_loop_tac. Qed.
 
 
   (* ---------------- sums in Q ---------------- *)
